@@ -254,6 +254,8 @@ pub enum Strict {
 }
 #[derive(Clone, Copy, Debug, PartialEq, Eq, Hash, Serialize, Deserialize)]
 pub enum GuardK {
+    /// an optional value that must be present (absence is reported by the guard)
+    Present,
     /// numeric value must be < 10
     Lt10,
     /// string value must not be "bad"
@@ -334,7 +336,13 @@ pub enum P {
     /// `literal(s).anywhere()`: consumes the first item equal to `s` wherever it stands
     LiteralAnywhere(String),
     /// `any(metavar, |s| s.contains('=').then(..))`: takes the first unconsumed item that looks like KEY=VAL
-    AnyKv { metavar: String, help: Option<DocSpec> },
+    AnyKv {
+        metavar: String,
+        help: Option<DocSpec>,
+        /// accept option-looking items (`--tag=NAME`) instead of plain `KEY=VAL` words
+        #[serde(default)]
+        dash: bool,
+    },
 }
 
 #[derive(Clone, Debug, PartialEq, Eq, Hash, Serialize, Deserialize, Default)]
@@ -486,6 +494,7 @@ fn optv(o: Option<Val>) -> Val {
 
 fn guard_fn(k: GuardK) -> (fn(&Val) -> bool, &'static str) {
     match k {
+        GuardK::Present => (|v| !matches!(v, Val::No), "must be given"),
         GuardK::Lt10 => (|v| !matches!(v, Val::N(n) if *n >= 10), GUARD_MSG_LT10),
         GuardK::NotBad => (|v| !matches!(v, Val::S(t) if t.0 == b"bad"), GUARD_MSG_NOTBAD),
         GuardK::Len2 => (|v| !matches!(v, Val::L(l) if l.len() > 2), GUARD_MSG_LEN2),
@@ -606,15 +615,22 @@ pub fn build_p(p: &P) -> BP {
             let mv = intern(metavar);
             macro_rules! mk {
                 ($t:ty, $f:expr) => {{
+                    // a metavariable ending in `_` asks for the help to be attached AFTER the
+                    // strictness annotation (both orders are legal and must mean the same)
+                    let help_last = metavar.ends_with('_');
                     let mut a = positional::<$t>(mv);
-                    if let Some(h) = help {
+                    if let (Some(h), false) = (help, help_last) {
                         a = a.help(h.build());
                     }
-                    match strict {
-                        Strict::Any => a.map($f).boxed(),
-                        Strict::Strict => a.strict().map($f).boxed(),
-                        Strict::NonStrict => a.non_strict().map($f).boxed(),
+                    let mut a = match strict {
+                        Strict::Any => a,
+                        Strict::Strict => a.strict(),
+                        Strict::NonStrict => a.non_strict(),
+                    };
+                    if let (Some(h), true) = (help, help_last) {
+                        a = a.help(h.build());
                     }
+                    a.map($f).boxed()
                 }};
             }
             match ty {
@@ -741,8 +757,9 @@ pub fn build_p(p: &P) -> BP {
         }
         P::Fail(m) => fail::<Val>(intern(m)).boxed(),
         P::LiteralAnywhere(s) => literal(intern(s)).anywhere().map(|_| Val::U).boxed(),
-        P::AnyKv { metavar, help } => {
-            let a = any::<String, _, _>(intern(metavar), |s: String| if s.contains('=') && !s.starts_with('-') { Some(Val::s(&s)) } else { None });
+        P::AnyKv { metavar, help, dash } => {
+            let dash = *dash;
+            let a = any::<String, _, _>(intern(metavar), move |s: String| if s.contains('=') && s.starts_with('-') == dash { Some(Val::s(&s)) } else { None });
             match help {
                 Some(h) => a.help(h.build()).boxed(),
                 None => a.boxed(),
